@@ -269,6 +269,39 @@ pub fn run_case(ctx: &Ctx, case: u64, ev: &mut Ev) {
     if snap(&r2) != after {
         fail!("c08:not-idempotent", "a second reduce changed the tree".to_string());
     }
+    // the same object is edited and reduced again: an edit that keeps len() but makes siblings equal
+    // (apply_func with a constant map turns every terminal into the same constant) must be seen by reduce
+    if rng.chance(0.3) {
+        let od = after.nodes.values().find(|nd| !nd.has_children()).map_or(1, |nd| nd.mat.len());
+        let mut konst = Aff { mat: vec![vec![0.0; od]; od], bias: (0..od).map(|i| (i + 1) as f64).collect() };
+        if rng.chance(0.3) {
+            // ... or only scales: nothing new becomes equal
+            konst = Aff::identity(od);
+            for i in 0..od {
+                konst.mat[i][i] = 2.0;
+            }
+        }
+        let mut r3 = r1.clone();
+        let edited = lib(case, "apply_func after reduce", || r3.apply_func(&konst.to_lib()));
+        if edited.is_ok() {
+            let mid = snap(&r3);
+            if lib(case, "reduce (after an edit of the reduced tree)", || r3.reduce()).is_err() {
+                fail!("c08:reduce-after-edit:panic", "reduce panicked on the edited tree".to_string());
+            }
+            let fin = snap(&r3);
+            let mut mg = 0;
+            let mut cs = 0;
+            let (expect2, _) = reduce_ref(&to_r(&mid, mid.root), true, &mut mg, &mut cs);
+            if !r_eq(&expect2, &to_r(&fin, fin.root)) {
+                fail!(
+                    "c08:reduce-after-edit",
+                    format!("after reduce, apply_func({}) and a second reduce the tree has {} nodes, the reference reduce of the edited tree gives {} ({} merges expected)", konst.json(), fin.nodes.len(), count(&expect2), mg)
+                );
+            }
+            ev.inc("reduce_after_edit_checked");
+            ev.count("merges_after_edit", mg as u64);
+        }
+    }
     ev.count("merges", merges as u64);
     if near > 0 {
         ev.inc("cases_with_near_miss_siblings");
